@@ -647,6 +647,29 @@ class C19(RebuildProp):
                     out.append({"version": v, "P": B, "tree": t, "meta_src": "ref", "hostile": True, "nsearch": 1, "unrelated": 1,
                                 "lonely_dest": True, "dest_absent": dest_absent, "file_in_way": kind == "file_in_way",
                                 "clauses": list(self.clauses), "route": ("lib", "cli")[len(out) % 2]})
+        # an escaping entry FOLLOWED by a copy that fails (one entry is a file, the next one lies below it): whatever
+        # error handling / roll-back runs must not reach the place the refused entry points to - where a file of
+        # somebody else already sits (v1 lists only: a v2 file tree cannot hold a name twice)
+        for h in HOSTILE + ["../..", "../../.."]:
+            for order in (0, 1):
+                for victims in (True, False):
+                    t = mk_tree("D3", (B, B, B))
+                    mps = [[h, "notes.txt"], ["data"], ["data", "inner.bin"]]
+                    if order:
+                        mps = [mps[1], mps[2], mps[0]]
+                    for fi, f in enumerate(t["files"]):
+                        f["meta_path"] = mps[fi]
+                        f["cands"] = [{"cls": "intact", "search": 0, "depth": fi % 2}]
+                    out.append({"version": 1, "P": B, "tree": t, "meta_src": "ref", "hostile": True, "nsearch": 1,
+                                "unrelated": 1, "victims": victims, "clauses": list(self.clauses),
+                                "route": ("lib", "cli")[len(out) % 2]})
+        # the plain hostile scenarios again with somebody else's file already present at the escape target
+        extra = []
+        for c in out:
+            if c.get("hostile") and not c.get("dest_links") and "victims" not in c and len(extra) < 400 and len(extra) % 1 == 0:
+                import copy
+                extra.append(dict(copy.deepcopy(c), victims=True))
+        out += extra[::2] if tier != "thorough" else extra
         out += self.pathres_cases(tier, rng)
         # benign controls: ordinary names must keep working (copy happens inside the destination)
         for v in (1, 2, 3):
